@@ -112,7 +112,9 @@ def scenarios(tier):
 def main(tier, replay, seed):
     import paramiko.pipe as PP
     import paramiko.buffered_pipe as BP
-    from cfa.driver import run_property
+    from cfa.driver import run_property, replay_file
+    if replay:
+        return replay_file(PROPERTY, scenarios("thorough"), replay)
     fns = [PP.OrPipe.set, PP.OrPipe.clear, PP.PosixPipe.set, PP.PosixPipe.clear, BP.BufferedPipe.feed, BP.BufferedPipe.read,
            BP.BufferedPipe.empty, BP.BufferedPipe.close]
     return run_property(PROPERTY, scenarios(tier), tier, seed, fns,
